@@ -32,6 +32,8 @@ import pipeline as P
 from common import Atom, a_int, a_rat, deep, dec, req
 
 RULE = (
+    "all cases are functions of VERIF_SEED (two streams: chk.rng for the dimensions of the first build, a second stream "
+    "seeded from the same seed for the dimensions added in the second pass); "
     "cases = (target/decoy score mixture: size 100..3000 with >= 50 targets and >= 50 decoys, null shape "
     "(normal, Gumbel, logistic, bimodal, exponential = mode at the left edge), pi0, separation, tie granularity (none .. integer scores), affine rescaling, input arrangement "
     "(random permutation, sorted either way, targets first, interleaved), estimator); every case is evaluated "
@@ -48,7 +50,16 @@ RULE = (
     "Parquet) x CONFIDENCE_CHUNK_SIZE (1,2,3,5,7,n-1,n,n+1 on small levels; 37..150 on levels of 250-400 rows) x "
     "decoys on/off x descs [True]|[False] x qvalue_algorithm x peps_error, with the PEP estimator real (hist_nnls, "
     "kde_nnls; thorough also qvality) or replaced by a stub (pointwise function, all ones, SystemExit 'no decoy "
-    "hits', other SystemExit, exception)"
+    "hits', other SystemExit, exception); SECOND PASS: mixture kind (regular = incorrect + correct targets | separated = "
+    "no incorrect target, pi0 = 0, targets 3..8 sd above the decoys | outlier = 1-3 PSMs far away | target_tail = decoys "
+    "reaching below every target), the first three cases of every estimator are one of each non-regular kind; the "
+    "permuted copy is handed over read-only or as a strided view, and the caller's arrays must be unchanged after "
+    "every call; every call of estimate_pi0_by_slope and the NNLS input of kde_nnls are compared with "
+    "Model/PepsKernel.lean; result-file runs also with any subset of the extra roll-up levels (ModifiedPeptide, "
+    "Precursor, PeptideGroup) and with proteins=, header line of every result file; roll-up tool runs = "
+    "brew_rollup.main on result files of assign_confidence x base level (psm | precursor | peptide) x extra levels x "
+    "options given | defaulted x PEP estimator real (hist_nnls; thorough also kde_nnls, qvality) or stub (pointwise, "
+    "ones, SystemExit, exception)"
 )
 
 TOL = 1e-9          # float64 composition vs. exact rational model
@@ -68,6 +79,9 @@ class Rec:
         self.hist_grid = []   # eval_scores of hist_data_from_scores
         self.pi0 = []
         self.hist_peps = []   # output of peps_from_scores_hist_nnls when used by qvalues_from_peps
+        self.pi0_calls = []   # estimate_pi0_by_slope: dict(t=target_pdf, d=decoy_pdf, thr=threshold, out=value)
+        self.mono_in = []     # monotonize_nnls(x, w, ascending=False): (x, w) of the outer call
+        self.inputs_modified = None   # which of the caller's arrays the estimator changed in place
 
 
 @contextlib.contextmanager
@@ -120,10 +134,23 @@ def recording(stub_kernel=None, stub_pi0=None):
 
     def mk_pi0(orig):
         def pi0(*a, **k):
+            if stub_pi0 is None:
+                ent = dict(t=np.array(a[0], dtype=float), d=np.array(a[1], dtype=float),
+                           thr=(a[2] if len(a) > 2 else k.get("threshold", 0.9)))
             r = stub_pi0 if stub_pi0 is not None else orig(*a, **k)
             rec.pi0.append(float(r))
+            if stub_pi0 is None:
+                ent["out"] = float(r)
+                rec.pi0_calls.append(ent)
             return r
         return pi0
+
+    o_mono = P.monotonize_nnls
+
+    def mono(x, w=None, ascending=True):
+        if not ascending:   # the call of kde_nnls (the function re-enters itself with the reversed problem)
+            rec.mono_in.append((np.array(x, dtype=float), None if w is None else np.array(w, dtype=float)))
+        return o_mono(x, w, ascending)
 
     o_hp = Q.peps_from_scores_hist_nnls
 
@@ -140,6 +167,7 @@ def recording(stub_kernel=None, stub_pi0=None):
     patch(P, "estimate_pi0_by_slope", mk_pi0(P.estimate_pi0_by_slope))
     patch(Q, "estimate_pi0_by_slope", mk_pi0(Q.estimate_pi0_by_slope))
     patch(Q, "peps_from_scores_hist_nnls", hp)
+    patch(P, "monotonize_nnls", mono)
     try:
         yield rec
     finally:
@@ -162,29 +190,58 @@ def same_kernel_record(a, b):
     return key(a) == key(b)
 
 
-def run_impl(alg, s, t, form="positional", **kw):
-    """-> (output array, Rec); exceptions propagate.  `form`: how the algorithm name is handed to the entry
-    point: "positional", "keyword", or "default" (argument omitted; only for the default estimator qvality)"""
+INPUT_VIEWS = ["plain", "readonly", "strided"]
+
+
+def as_view(x, view):
+    """the same values as a fresh array / a read-only array (what pandas hands out under copy-on-write) / a
+    non-contiguous view with stride 2 (a column of a 2-d table)"""
+    x = np.array(x)
+    if view == "readonly":
+        x.setflags(write=False)
+    elif view == "strided":
+        big = np.empty(2 * len(x), dtype=x.dtype)
+        big[::2] = x
+        big[1::2] = x[::-1] if len(x) else x
+        x = big[::2]
+    return x
+
+
+def run_impl(alg, s, t, form="positional", view="plain", **kw):
+    """-> (output array, Rec); exceptions propagate (with the record so far as `_c06_rec`).  `form`: how the
+    algorithm name is handed to the entry point: "positional", "keyword", or "default" (argument omitted; only for
+    the default estimator qvality); `view`: memory layout / writability of the two arrays handed over"""
     import mokapot.peps as P
     import mokapot.qvalues as Q
 
-    s = np.array(s, dtype=float)  # private copies: the code may sort / assign in place
-    t = np.array(t, dtype=bool)
+    s0 = np.array(s, dtype=float)
+    t0 = np.array(t, dtype=bool)
+    s = as_view(s0, view)  # private copies: the code may sort / assign in place
+    t = as_view(t0, view)
     with recording(**kw) as rec, warnings.catch_warnings(), np.errstate(all="ignore"):
         warnings.simplefilter("ignore")
-        if alg in PEP_ALGS:
-            if form == "default":
-                assert alg == "qvality"
-                out = P.peps_from_scores(s, t)
-            elif form == "keyword":
-                out = P.peps_from_scores(s, t, pep_algorithm=alg)
+        try:
+            if alg in PEP_ALGS:
+                if form == "default":
+                    assert alg == "qvality"
+                    out = P.peps_from_scores(s, t)
+                elif form == "keyword":
+                    out = P.peps_from_scores(s, t, pep_algorithm=alg)
+                else:
+                    out = P.peps_from_scores(s, t, alg)
             else:
-                out = P.peps_from_scores(s, t, alg)
-        else:
-            if form == "keyword":
-                out = Q.qvalues_from_scores(s, t, qvalue_algorithm=alg)
-            else:
-                out = Q.qvalues_from_scores(s, t, alg)
+                if form == "keyword":
+                    out = Q.qvalues_from_scores(s, t, qvalue_algorithm=alg)
+                else:
+                    out = Q.qvalues_from_scores(s, t, alg)
+        except BaseException as e:
+            try:
+                e._c06_rec = rec
+            except Exception:  # noqa: BLE001
+                pass
+            raise
+    changed = [nm for nm, a, b in (("scores", s, s0), ("targets", t, t0)) if not np.array_equal(a, b)]
+    rec.inputs_modified = changed or None
     return np.asarray(out, dtype=float), rec
 
 
@@ -212,7 +269,16 @@ def draw(rng, shape, n, loc, scale):
 ARRANGEMENTS = ["random", "random", "random", "desc", "asc", "targets_first", "interleaved"]
 
 
-def gen_case(rng, nmax):
+MIXTURES = ["regular", "regular", "regular", "regular", "regular", "regular", "separated", "separated", "outlier",
+            "target_tail"]
+
+
+def gen_case(rng, nmax, mixture=None):
+    """`mixture`: "regular" = targets are a mix of incorrect (null-distributed) and correct ones, pi0 0.2..0.8;
+    "separated" = no incorrect target at all (pi0 = 0: a filtered or very clean target list), the targets lie
+    3..8 decoy standard deviations above the decoys; "outlier" = a regular mixture plus 1-3 PSMs scoring far away
+    from everything else; "target_tail" = a regular mixture whose decoys reach further down than any target"""
+    mixture = mixture or rng.choice(MIXTURES)
     nt = rng.choice([50, 60, 80, 120, 200, 300, 500, 800, 1500])
     nd = rng.choice([50, 60, 80, 120, 200, 300, 500, 800, 1500])
     while nt + nd > nmax:
@@ -220,9 +286,25 @@ def gen_case(rng, nmax):
     shape = rng.choice(["normal", "normal", "gumbel", "logistic", "bimodal", "expo"])
     pi0 = rng.choice([0.2, 0.4, 0.6, 0.8])
     sep = rng.choice([1.5, 2.5, 4.0, 6.0])
-    n_false = min(nt - 5, max(5, int(round(pi0 * nt))))
-    tgt = draw(rng, shape, n_false, 0.0, 1.0) + draw(rng, "normal", nt - n_false, sep, rng.choice([0.7, 1.0, 1.5]))
+    if mixture == "separated":
+        pi0, sep = 0.0, rng.choice([3.0, 5.0, 8.0])
+        tgt = draw(rng, "normal", nt, sep, rng.choice([0.5, 1.0]))
+    else:
+        n_false = min(nt - 5, max(5, int(round(pi0 * nt))))
+        tgt = draw(rng, shape, n_false, 0.0, 1.0) + draw(rng, "normal", nt - n_false, sep, rng.choice([0.7, 1.0, 1.5]))
     dec_ = draw(rng, shape, nd, 0.0, 1.0)
+    if mixture == "outlier":
+        for _ in range(rng.randint(1, 3)):
+            far = rng.choice([-1.0, 1.0]) * rng.choice([20.0, 60.0, 200.0])
+            if rng.random() < 0.5:
+                tgt[rng.randrange(len(tgt))] = far
+            else:
+                dec_[rng.randrange(len(dec_))] = far
+    elif mixture == "target_tail":
+        lo = min(tgt)
+        dec_ = [x if x > lo else x - rng.choice([5.0, 15.0, 40.0]) for x in dec_]
+        if min(dec_) > lo:
+            dec_[rng.randrange(len(dec_))] = lo - rng.choice([5.0, 15.0, 40.0])
     gran = rng.choice([None, None, 64, 16, 8, 4, 2, 1])
     a = rng.choice([1.0, 1.0, 0.25, 8.0, 64.0])
     b = rng.choice([0.0, 0.0, -3.0, 10.0, 100.0])
@@ -233,7 +315,7 @@ def gen_case(rng, nmax):
     arr = rng.choice(ARRANGEMENTS)
     rows = arrange(rng, rows, arr)
     return dict(scores=[r[0] for r in rows], labels=[r[1] for r in rows], shape=shape, gran=gran, arr=arr,
-                pi0=pi0, sep=sep)
+                pi0=pi0, sep=sep, mixture=mixture)
 
 
 def arrange(rng, rows, arr):
@@ -338,8 +420,8 @@ def kernel_hypotheses(alg, s, t, rec):
             bad.append("grid and nnls solution differ in length")
         if len(es) < 1 or (np.diff(es) <= 0).any() or not np.isfinite(es).all():
             bad.append("evaluation grid not strictly ascending")
-        if alg in ("hist_nnls", "from_peps") and d.sum() <= 0:
-            bad.append("pep_est[0] = 0 (0/0 in scale_to_one)")
+        # (an identically zero fit is no longer a hypothesis of any theorem: since the repair 835a908 it is left
+        #  unscaled and every PSM gets PEP 0 — C06_hist_nnls_defined_iff; tallied as `hist_zero_fit_unscaled`)
     elif alg == "from_counts":
         if len(rec.pi0) != 1:
             return [f"pi0 estimated {len(rec.pi0)} times"]
@@ -420,7 +502,7 @@ def parse_model(line):
 # ----------------------------------------------------------------------------------------------
 def jsonable(case, alg, perm=None):
     d = dict(alg=alg, scores=[float(x).hex() for x in case["scores"]], labels=[bool(x) for x in case["labels"]])
-    for k in ("shape", "gran", "arr", "stub", "form"):
+    for k in ("shape", "gran", "arr", "stub", "form", "mixture"):
         if k in case:
             d[k] = case[k]
     if perm is not None:
@@ -465,8 +547,26 @@ def in_quantifier(s, t):
 
 def classify_exception(chk, case, alg, s, t, e, stub, permuted=False):
     site = kernel_site(e)
+    rec = getattr(e, "_c06_rec", None)
+    nan_input = (alg == "kde_nnls" and rec is not None and rec.mono_in and np.isnan(rec.mono_in[-1][0]).any())
     if stub or not in_quantifier(s, t):
         chk.reject(f"{alg}:{type(e).__name__}")
+    elif nan_input:
+        # the composition code itself produced the NaN (0/0 where gaussian_kde's target density underflows to 0): the
+        # behaviour before the repair 835a908 (Mutants.kdeNnlsFullOld_violates); the repaired code and the model
+        # answer 1 there (C06_kde_nnls_full_defined_iff)
+        x, w = rec.mono_in[-1]
+        chk.count("kde_zero_target_density", "raised")
+        if rec.pi0_calls:
+            chk._kside.append(("kdepepest", alg, case, x, req("kdepepest", F(rec.pi0_calls[-1]["out"]),
+                                                                fl(rec.pi0_calls[-1]["t"]), fl(rec.pi0_calls[-1]["d"]))))
+        chk.spec_violation("zero-target-density:kde_nnls",
+                           dict(case=jsonable(case, alg), error=repr(e)[:300], estimator=alg,
+                                nan_grid_points=int(np.isnan(x).sum()), grid_points=int(len(x)),
+                                zero_target_density_points=int((w == 0).sum()) if w is not None else None,
+                                clause="each PSM receives one finite PEP: the target density is exactly 0 on "
+                                       f"{int(np.isnan(x).sum())} of {len(x)} evaluation points, pepEst = 1 - 0/0 = NaN "
+                                       f"there, and the NNLS fit raised {type(e).__name__}"))
     elif site is not None:
         # hard failure inside a numeric kernel on an in-scope input: reported, never patched over
         chk.spec_violation(f"kernel-numerics:{site}",
@@ -478,8 +578,97 @@ def classify_exception(chk, case, alg, s, t, e, stub, permuted=False):
                                 clause="each PSM receives a value: the estimator raised"))
 
 
+def pi0_request(call):
+    """request line for the model of one recorded call of estimate_pi0_by_slope.  The product threshold * max and
+    the slope of np.polyfit are computed here with the same numpy primitives on the same arrays (they are the
+    parameters of the model); which branch is taken and what is returned is the model's"""
+    t, d, thr = call["t"], call["d"], call["thr"]
+    v = thr * np.max(d)
+    hit = np.nonzero(d >= v)[0]
+    li = int(hit[0]) if len(hit) else 0
+    slope = 0.0
+    if li >= 2 and np.ptp(d[:li]) != 0:
+        with warnings.catch_warnings():
+            warnings.simplefilter("ignore")
+            slope = float(np.polyfit(d[:li], t[:li], 1)[0])
+    if not (math.isfinite(float(v)) and math.isfinite(slope)):
+        return None, li
+    return req("pi0byslope", F(v), fl(d), F(slope)), li
+
+
+def kernel_side_requests(chk, alg, case, rec):
+    """queue the comparisons of the composition code between the raw densities / counts and the NNLS fit with
+    Model/PepsKernel.lean: every recorded call of estimate_pi0_by_slope, and the vector kde_nnls hands to
+    monotonize_nnls"""
+    for call in rec.pi0_calls:
+        if not (np.isfinite(call["t"]).all() and np.isfinite(call["d"]).all() and len(call["d"])):
+            chk.reject(f"{alg}:non-finite-density")
+            continue
+        line, li = pi0_request(call)
+        chk.count("pi0_branch", "no-flank" if (li < 2 or np.ptp(call["d"][:li]) == 0) else
+                  ("clamped" if call["out"] <= 1e-10 else "slope"))
+        if line is not None:
+            chk._kside.append(("pi0byslope", alg, case, call["out"], line))
+    if alg == "kde_nnls" and rec.mono_in and rec.pi0_calls:
+        x, w = rec.mono_in[-1]
+        c = rec.pi0_calls[-1]
+        chk.count("kde_zero_target_density", bool((c["t"] == 0).any()))
+        chk._kside.append(("kdepepest", alg, case, x, req("kdepepest", F(c["out"]), fl(c["t"]), fl(c["d"])), c["t"]))
+    if alg in ("hist_nnls", "from_peps") and rec.pi0_calls:
+        chk.count("hist_zero_target_bins", bool((rec.pi0_calls[-1]["t"] == 0).any()))
+        chk.count("hist_zero_fit_unscaled", bool(len(rec.nnls) == 1 and not rec.nnls[0].any()))
+
+
+def flush_kernel_side(chk):
+    ks = getattr(chk, "_kside", None)
+    if not ks:
+        return
+    resp = common.driver_batch([k[4] for k in ks])
+    for (op, alg, case, impl, *rest), r in zip(ks, resp):
+        r = r.strip()
+        tden = rest[1] if len(rest) > 1 else None
+        if op == "pi0byslope":
+            try:
+                m = a_rat(dec(r)[0]) if r.startswith("[") else r
+            except Exception:  # noqa: BLE001
+                m = r
+            # max / the constants 1.0 and 1e-10 involve no rounding: exact; on the slope branch one ulp of slack for
+            # np.polyfit called twice (BLAS may round differently on differently aligned copies)
+            same = (not isinstance(m, str)) and (Fraction(m) == F(impl) or (
+                Fraction(m) > F(1e-10) and abs(float(m) - float(impl)) <= 1e-12 * max(1.0, abs(float(impl)))))
+            if not same:
+                chk.corr_break(f"pi0byslope:{alg}", dict(case=jsonable(case, alg), impl=float(impl), model=str(m)))
+            else:
+                chk.count("kernel_side_agrees", f"pi0byslope:{alg}")
+        else:
+            if r == "nan":
+                ok = bool(np.isnan(impl).any())
+            elif r.startswith("["):
+                m = np.array([float(x) for x in deep(a_rat, dec(r))], dtype=float)
+                ok = (not np.isnan(impl).any()) and close(impl, m)
+                if not ok and tden is not None and impl.shape == m.shape == tden.shape and not np.isnan(impl).any():
+                    # subnormal densities (the KDE tail around 1e-316): `decoy_pdf * pi0` and the difference carry
+                    # an absolute error of a few units of 2^-1074, i.e. a relative error of that over target_pdf
+                    with np.errstate(all="ignore"):
+                        slack = np.where(tden > 0, 8 * 5e-324 / np.where(tden > 0, tden, 1.0), 0.0)
+                    ok = bool(np.all(np.abs(impl - m) <= TOL * (1.0 + np.abs(m)) + slack))
+                    if ok:
+                        chk.float_boundary += 1
+                        chk.count("kdepepest_subnormal_density_slack")
+            else:
+                ok = False
+            if not ok:
+                chk.corr_break(f"kdepepest:{alg}", dict(case=jsonable(case, alg), impl=[float(x) for x in impl[:40]],
+                                                        model=r[:400]))
+            else:
+                chk.count("kernel_side_agrees", f"kdepepest:{alg}:{'nan' if r == 'nan' else 'values'}")
+    del ks[:]
+
+
 def eval_one(chk, case, alg, perm, pending, stub=None):
     """run the implementation on the case and on its permuted copy; queue the model request"""
+    if not hasattr(chk, "_kside"):
+        chk._kside = []
     s = np.array(case["scores"], dtype=float)
     t = np.array(case["labels"], dtype=bool)
     kw = dict(stub or {})
@@ -506,7 +695,16 @@ def eval_one(chk, case, alg, perm, pending, stub=None):
     chk.count("arrangement", case.get("arr"))
     chk.count("granularity", case.get("gran"))
     chk.count("shape", case.get("shape"))
+    chk.count("mixture", case.get("mixture"))
     chk.count("values_all_equal", bool(len(out) and (out == out[0]).all()))
+    if rec.inputs_modified:
+        chk.spec_violation(f"input-arrays-modified:{alg}",
+                           dict(case=jsonable(case, alg), modified=rec.inputs_modified,
+                                clause="the i-th returned value belongs to the i-th input PSM: the estimator changed the "
+                                       f"caller's {' and '.join(rec.inputs_modified)} array in place"))
+        return
+    if not stub:
+        kernel_side_requests(chk, alg, case, rec)
     # kernel hypotheses
     hyp = []
     if not stub:
@@ -524,6 +722,18 @@ def eval_one(chk, case, alg, perm, pending, stub=None):
     if v is not None and not stub and not in_quantifier(s, t):
         chk.reject(f"{alg}:outside-quantifier:{v.split(':')[0]}")
         return
+    if (v is not None and not stub and v.split(":")[0] == "nan value" and alg in ("hist_nnls", "from_peps")
+            and len(rec.nnls) == 1 and not rec.nnls[0].any() and np.isnan(out).all()):
+        # the NNLS fit is identically 0 (pi0 clamped to 1e-10 because no target scores in the decoys' left flank):
+        # `pep_est / pep_est[0]` = 0/0 for every PSM — the behaviour before the repair 835a908
+        # (Mutants.histNnlsOfOld_violates); the repaired code leaves the fit unscaled (C06_hist_nnls_defined_iff)
+        chk.count("hist_all_zero_fit", alg)
+        chk.spec_violation(f"all-zero-fit:{alg}",
+                           dict(case=jsonable(case, alg), impl=[float(x) for x in out[:20]], estimator=alg,
+                                pi0=(rec.pi0[0] if rec.pi0 else None),
+                                clause="each PSM receives one finite value: the monotone NNLS fit of hist_nnls is "
+                                       "identically 0, scale_to_one computes 0/0 and every PSM gets NaN"))
+        return
     if v is not None and not stub and hyp and v.split(":")[0] in ("nan value", "non-finite PEP"):
         chk.spec_violation(f"kernel-numerics:{hyp_kernel(alg)}",
                            dict(case=jsonable(case, alg), impl=[float(x) for x in out[:50]], estimator=alg,
@@ -539,13 +749,22 @@ def eval_one(chk, case, alg, perm, pending, stub=None):
     tdt = td_tie(s, t)
     if perm is not None:
         p = np.array(perm)
+        # the permuted copy is handed over in another memory form: read-only (pandas under copy-on-write) or as a
+        # non-contiguous view
+        view = INPUT_VIEWS[int(p[0]) % 3] if len(p) else "plain"
+        chk.count("input_view_of_permuted_run", view)
         try:
-            out2, rec2 = run_impl(alg, s[p], t[p], **kw)
+            out2, rec2 = run_impl(alg, s[p], t[p], view=view, **kw)
         except BaseException as e:
             if isinstance(e, KeyboardInterrupt):
                 raise
             classify_exception(chk, dict(case, scores=s[p].tolist(), labels=t[p].tolist()), alg, s[p], t[p], e, stub,
                                permuted=True)
+            return
+        if rec2.inputs_modified:
+            chk.spec_violation(f"input-arrays-modified:{alg}",
+                               dict(case=jsonable(case, alg, perm), modified=rec2.inputs_modified, view=view,
+                                    clause="the estimator changed the caller's array in place"))
             return
         v2 = spec_clauses(alg, s[p], out2)
         if v2 is not None:
@@ -624,6 +843,7 @@ def compare_model(chk, op, alg, case, out, resp_line):
 
 
 def flush(chk, pending, spec_too=True):
+    flush_kernel_side(chk)
     if not pending:
         return
     lines = []
@@ -665,18 +885,38 @@ def random_perm(rng, n):
     return p
 
 
+def rng2(chk):
+    """the generator of the dimensions added in the second pass: a stream of its own, a function of VERIF_SEED like
+    chk.rng, so that the estimator cases of the earlier dimensions stay those of earlier runs with the same seed"""
+    if not hasattr(chk, "_rng2"):
+        import random
+
+        chk._rng2 = random.Random(f"C06-second-pass:{chk.seed}")
+    return chk._rng2
+
+
 def run_generated(chk, n_heavy, n_light, nmax):
     rng = chk.rng
+    r2 = rng2(chk)
     pending = []
     plan = [("qvality", n_heavy), ("kde_nnls", n_heavy), ("hist_nnls", n_light), ("from_peps", n_light),
             ("from_counts", n_light)]
+    kinds = ["separated", "target_tail", "outlier"]
     for alg, count in plan:
-        for _ in range(count):
-            case = gen_case(rng, nmax if alg in ("hist_nnls", "from_peps", "from_counts") else min(nmax, 1200))
+        for i in range(count):
+            lim = nmax if alg in ("hist_nnls", "from_peps", "from_counts") else min(nmax, 1200)
+            case = gen_case(rng, lim, mixture="regular")
             # how the estimator is named at the entry point: positionally, by keyword, or (qvality) not at all
             case["form"] = rng.choice(["positional", "keyword", "default"] if alg == "qvality"
                                       else ["positional", "keyword"])
-            eval_one(chk, case, alg, random_perm(rng, len(case["scores"])), pending)
+            perm = random_perm(rng, len(case["scores"]))
+            # the first cases of every estimator are one of each non-regular mixture kind, and so is every third or
+            # so of the others (drawn from the second stream; the regular case drawn above is dropped)
+            if i < len(kinds) or r2.random() < 0.3:
+                case = dict(gen_case(r2, lim, mixture=kinds[i] if i < len(kinds) else r2.choice(kinds)),
+                            form=case["form"])
+                perm = random_perm(r2, len(case["scores"]))
+            eval_one(chk, case, alg, perm, pending)
             if len(pending) >= 12:
                 flush(chk, pending)
     flush(chk, pending)
@@ -967,13 +1207,21 @@ def parse_files(line):
 def fx(x):
     """exact value of a float for comparisons; non-finite values (the +inf q-values of from_counts with a decoy on
     top, NaN PEPs of a degenerate histogram fit) compare by their repr"""
-    x = float(x)
+    try:
+        x = float(x)
+    except (TypeError, ValueError):   # a cell of another column under this heading (header and data rows disagree)
+        return ("non-numeric", repr(x))
     return F(x) if math.isfinite(x) else ("non-finite", repr(x))
 
 
 def num(v):
     """back to a float for messages / shape checks"""
-    return float(v) if isinstance(v, Fraction) else float(v[1])
+    if isinstance(v, Fraction):
+        return float(v)
+    try:
+        return float(v[1])
+    except (TypeError, ValueError):
+        return float("nan")
 
 
 def read_out_file(path, idmap):
@@ -1126,8 +1374,10 @@ def level_recording(stub, gk=128.0):
         lf = pd.read_parquet(dp) if dp.suffix == ".parquet" else pd.read_csv(dp, sep="\t", float_precision="round_trip",
                                                                             dtype={"PSMId": str})
         lab = lf[self._target_column]
-        levels.append(dict(level=level, decoys=decoys, out_paths=[Path(x) for x in out_paths],
-                           ids=[str(x) for x in lf["PSMId"]], file_scores=lf["score"].to_numpy(dtype=float),
+        idcol = "PSMId" if "PSMId" in lf.columns else lf.columns[0]   # protein level: "mokapot protein group"
+        levels.append(dict(level=level, decoys=decoys, out_paths=[Path(x) for x in out_paths], target_column=self._target_column,
+                           level_columns=[str(c) for c in lf.columns],
+                           ids=[str(x) for x in lf[idcol]], file_scores=lf["score"].to_numpy(dtype=float),
                            file_targets=(lab.to_numpy() == 1) if lab.dtype != bool else lab.to_numpy(dtype=bool),
                            qvals=np.array(self.qvals, dtype=float),
                            peps=None if self.peps is None else np.array(self.peps, dtype=float),
@@ -1146,19 +1396,29 @@ def level_recording(stub, gk=128.0):
         C.Confidence.write_to_disk = o_wtd
 
 
-def gen_file_run(rng, k, real):
+def gen_file_run(rng, k, real, r2=None):
     """options of one assign_confidence run"""
     if real:
-        return dict(stub=None, alg=real, n_spectra=rng.choice([260, 340]), tie_free=rng.random() < 0.5,
-                    c=rng.choice([37, 64, 101, 150, 10 ** 6]), decoys=rng.random() < 0.7, desc=rng.random() < 0.6,
-                    qalg=rng.choice(["tdc", "from_peps", "from_counts"]), peps_error=rng.random() < 0.3,
-                    fmt=rng.choice([".pin", ".pin", ".parquet"]))
+        o = dict(stub=None, alg=real, n_spectra=rng.choice([260, 340]), tie_free=rng.random() < 0.5,
+                 c=rng.choice([37, 64, 101, 150, 10 ** 6]), decoys=rng.random() < 0.7, desc=rng.random() < 0.6,
+                 qalg=rng.choice(["tdc", "from_peps", "from_counts"]), peps_error=rng.random() < 0.3,
+                 fmt=rng.choice([".pin", ".pin", ".parquet"]))
+        # extra roll-up levels (one more PEP call each): on a third of the real runs, one extra level
+        r2 = r2 or rng
+        o["levels"] = [r2.choice(["ModifiedPeptide", "Precursor", "PeptideGroup"])] if r2.random() < 0.34 else []
+        o["proteins"] = False
+        return o
     stub = ["pointwise", "pointwise", "pointwise", "ones", "ones", "exit-no-decoys", "exit-other", "raised"][k % 8]
     n_spectra = rng.choice([12, 20, 33])
-    return dict(stub=stub, alg=rng.choice(PEP_ALGS), n_spectra=n_spectra, tie_free=rng.random() < 0.4,
-                c=rng.choice([1, 2, 3, 5, 7, n_spectra - 1, n_spectra, n_spectra + 1, 10 ** 6]),
-                decoys=rng.random() < 0.5, desc=rng.random() < 0.5, qalg="tdc",
-                peps_error=rng.random() < 0.5, fmt=rng.choice([".pin", ".pin", ".parquet"]))
+    o = dict(stub=stub, alg=rng.choice(PEP_ALGS), n_spectra=n_spectra, tie_free=rng.random() < 0.4,
+             c=rng.choice([1, 2, 3, 5, 7, n_spectra - 1, n_spectra, n_spectra + 1, 10 ** 6]),
+             decoys=rng.random() < 0.5, desc=rng.random() < 0.5, qalg="tdc",
+             peps_error=rng.random() < 0.5, fmt=rng.choice([".pin", ".pin", ".parquet"]))
+    # the other levels that get result files: any subset of the extra roll-up levels, and the protein level
+    r2 = r2 or rng
+    o["levels"] = [c for c in ("ModifiedPeptide", "Precursor", "PeptideGroup") if r2.random() < 0.4]
+    o["proteins"] = r2.random() < 0.3
+    return o
 
 
 def result_files_ext(chk, n_stub, real_algs):
@@ -1167,12 +1427,17 @@ def result_files_ext(chk, n_stub, real_algs):
     import pipeline
 
     rng = chk.rng
-    runs = [gen_file_run(rng, k, None) for k in range(n_stub)] + [gen_file_run(rng, 0, a) for a in real_algs]
+    r2 = rng2(chk)
+    runs = [gen_file_run(rng, k, None, r2) for k in range(n_stub)] + [gen_file_run(rng, 0, a, r2) for a in real_algs]
     for o in runs:
         df = mkdata.make_psm_table(rng, n_spectra=o["n_spectra"], max_per_spectrum=2, n_feat=2, integer_scores=True,
-                                   tie_free=o["tie_free"], signal=3.0, label_enc=rng.choice(["pm1", "pm1", "bool"]) if o["fmt"] == ".pin" else "pm1")
+                                   tie_free=o["tie_free"], signal=3.0, label_enc=rng.choice(["pm1", "pm1", "bool"]) if o["fmt"] == ".pin" else "pm1",
+                                   level_cols=tuple(o.get("levels", ())),
+                                   **(dict(letter_peptides=True, n_peptides=12) if o.get("proteins") else {}))
         feat = df["feat0"].to_numpy(dtype=float)
         opts = {k: o[k] for k in ("stub", "alg", "c", "decoys", "desc", "qalg", "peps_error", "fmt")}
+        opts["levels"] = list(o.get("levels", ()))
+        opts["proteins"] = bool(o.get("proteins"))
         opts["gk"] = 128.0 * (4096.0 if o["tie_free"] else 1.0)
         with tempfile.TemporaryDirectory() as td, warnings.catch_warnings(), np.errstate(all="ignore"):
             warnings.simplefilter("ignore")
@@ -1192,11 +1457,16 @@ def result_files_ext(chk, n_stub, real_algs):
                 C.peps_from_scores = marked
                 try:
                     ds = mkdata.read_dataset(pin)
+                    pkw = {}
+                    if o.get("proteins"):
+                        fasta = mkdata.make_fasta(12, 6, td / "db.fasta")
+                        with contextlib.redirect_stdout(io.StringIO()), contextlib.redirect_stderr(io.StringIO()):
+                            pkw = dict(proteins=mokapot.read_fasta(fasta, missed_cleavages=0, min_length=4), rng=1)
                     # a lower-is-better score is handed over as such (descs=[False]); the files report its negation
                     mokapot.assign_confidence([ds], max_workers=1, scores=[feat if o["desc"] else -feat],
                                               descs=[o["desc"]], prefixes=[None], dest_dir=td, decoys=o["decoys"],
                                               peps_algorithm=o["alg"], qvalue_algorithm=o["qalg"],
-                                              peps_error=o["peps_error"], do_rollup=True)
+                                              peps_error=o["peps_error"], do_rollup=True, **pkw)
                 except BaseException as e:
                     if isinstance(e, KeyboardInterrupt):
                         raise
@@ -1310,6 +1580,22 @@ def check_file_run(chk, opts, td, levels, pend_call, raised, rec, in_writer=None
                                               zip(lv["ids"][:30], lv["file_scores"][:30], peps_ret[:30])]))
             continue
         chk.count("result_file_aligned", f"{'stub' if stub else alg}:{lv['level']}")
+        # (2b) the header line: the PEP cells stand under `posterior_error_prob` (the rows carry no names; the values
+        #      read above by heading were the row's own PEP / score, so the data order is the header's)
+        extras = [c for c in ("ModifiedPeptide", "Precursor", "PeptideGroup") if c in opts.get("levels", ())]
+        exp_hdr = (["mokapot protein group", "best peptide", "stripped sequence", "score", "q-value", "posterior_error_prob"]
+                   if lv["level"] == "proteins" else
+                   ["PSMId", "peptide", *extras, "score", "q-value", "posterior_error_prob", "proteinIds"])
+        hdrs = [open(pth).readline().rstrip("\r\n").split("\t") for pth in lv["out_paths"]]
+        if any(h != exp_hdr for h in hdrs):
+            chk.spec_violation("result-file-header",
+                               dict(info, impl=hdrs, expected=exp_hdr,
+                                    clause="the PEP column of every result file: the header line of the "
+                                           f"{lv['level']} files is not the expected list of column names"))
+            continue
+        chk.count("result_file_columns", f"{lv['level']}:extras={len(extras)}")
+        lines.append(req("pepcolumns", lv["level"], lv.get("target_column") or "Label", extras))
+        ctx.append(("cols", lv, info, hdrs[0], lv.get("level_columns")))
         # (3) shape of the columns over the rows present in the files
         allrows = tf + (dfile or [])
         fs = np.array([num(r[1]) for r in allrows])
@@ -1358,7 +1644,16 @@ def check_file_run(chk, opts, td, levels, pend_call, raised, rec, in_writer=None
     if lines:
         resp = common.driver_batch(lines)
         for (kind, lv, info, a, b), r in zip(ctx, resp):
-            if kind == "peps":
+            if kind == "cols":
+                try:
+                    m = [[common.a_str(x) for x in part] for part in dec(r)]
+                except Exception:  # noqa: BLE001
+                    m = None
+                if m is None or m[0] != a or m[1] != a or (b is not None and m[2] != b):
+                    chk.corr_break("pepcolumns", dict(info, impl=dict(header=a, level_file_columns=b), model=repr(m)[:600]))
+                else:
+                    chk.count("result_file_columns_model_agrees", lv["level"])
+            elif kind == "peps":
                 m = parse_model(r)
                 if isinstance(m, str) and m == "nan-all" and len(a) and np.isnan(a).all():
                     chk.reject(f"result-file:{alg}:nan-all")
@@ -1374,6 +1669,237 @@ def check_file_run(chk, opts, td, levels, pend_call, raised, rec, in_writer=None
                                                       model=repr(m if isinstance(m, str) else (m[0][:6], None if m[1] is None else m[1][:6]))[:700]))
                 else:
                     chk.count("result_file_model_agrees", lv["level"])
+
+
+# ----------------------------------------------------------------------------------------------
+# result files of the roll-up tool (brew_rollup.main): the third producer of a posterior_error_prob column
+# ----------------------------------------------------------------------------------------------
+ROLLUP_STD = {"SpecId": "psm_id", "PSMId": "psm_id", "Precursor": "precursor", "pcm": "precursor", "PCM": "precursor",
+              "Peptide": "peptide", "PeptideGroup": "peptide_group", "peptidegroup": "peptide_group",
+              "ModifiedPeptide": "modified_peptide", "modifiedpeptide": "modified_peptide", "q-value": "q_value"}
+ROLLUP_SRC_FILE = {"psm": "psms", "precursor": "precursors", "peptide": "peptides"}
+ROLLUP_NEEDS = {"precursor": "Precursor"}
+
+
+def gen_rollup_run(rng, k, real):
+    levels = [c for c in ("ModifiedPeptide", "Precursor", "PeptideGroup") if rng.random() < 0.6]
+    base = rng.choice(["psm", "psm", "psm", "precursor", "peptide"])
+    if base in ROLLUP_NEEDS and ROLLUP_NEEDS[base] not in levels:
+        levels = [c for c in ("ModifiedPeptide", "Precursor", "PeptideGroup") if c in levels or c == ROLLUP_NEEDS[base]]
+    if real:
+        return dict(stub=None, alg=real, n_spectra=rng.choice([260, 340]), tie_free=rng.random() < 0.5, levels=levels,
+                    base="psm", qalg=rng.choice(["tdc", "from_peps", "from_counts"]), given=rng.random() < 0.7)
+    stub = ["pointwise", "pointwise", "pointwise", "ones", "exit-no-decoys", "raised"][k % 6]
+    return dict(stub=stub, alg=rng.choice(PEP_ALGS), n_spectra=rng.choice([12, 20, 33]), tie_free=rng.random() < 0.4,
+                levels=levels, base=base, qalg="tdc", given=rng.random() < 0.5)
+
+
+def read_tool_file(path):
+    """result file of the tool -> [(score, q, pep)] with exact values, in file order (None: absent)"""
+    import pandas as pd
+
+    if not Path(path).exists():
+        return None
+    df = pd.read_csv(path, sep="\t", float_precision="round_trip")
+    return [(fx(a), fx(b), fx(c)) for a, b, c in zip(df["score"], df["q_value"], df["posterior_error_prob"])]
+
+
+def rollup_files(chk, n_stub, real_algs):
+    """`brew_rollup.main` on result files written by assign_confidence: per roll-up level, the q-values and PEPs the
+    tool's estimators returned for the rows of the level (recorded by pass-through wrappers; the PEP estimator real or
+    a stub) against the two files the tool wrote: row i of the level, with pep[i], in the file of its label, in order"""
+    import mkdata
+    import pipeline
+
+    BR = pipeline.mod("mokapot.brew_rollup")
+    QV = pipeline.mod("mokapot.qvalues")
+    rng = rng2(chk)
+    runs = [gen_rollup_run(rng, k, None) for k in range(n_stub)] + [gen_rollup_run(rng, 0, a) for a in real_algs]
+    for o in runs:
+        df = mkdata.make_psm_table(rng, n_spectra=o["n_spectra"], max_per_spectrum=2, n_feat=2, integer_scores=True,
+                                   tie_free=o["tie_free"], signal=3.0, level_cols=tuple(o["levels"]))
+        feat = df["feat0"].to_numpy(dtype=float)
+        gk = 128.0 * (4096.0 if o["tie_free"] else 1.0)
+        opts = {k: o[k] for k in ("stub", "alg", "levels", "base", "qalg", "given", "tie_free", "n_spectra")}
+        calls, qcalls = [], []
+        o_pep, o_q = BR.peps_from_scores, QV.qvalues_from_scores
+
+        def pep(*a, _o=o, **k):
+            ent = dict(scores=np.array(a[0], dtype=float), targets=np.array(a[1], dtype=bool),
+                       alg=(a[2] if len(a) > 2 else k.get("pep_algorithm")), call="raised")
+            calls.append(ent)
+            if _o["stub"] == "exit-no-decoys":
+                ent["call"] = "exit-no-decoys"
+                raise SystemExit("Error: no decoy hits available for PEP calculation (stub)")
+            if _o["stub"] == "raised":
+                raise FloatingPointError("stub: the estimator failed")
+            if _o["stub"] == "ones":
+                r = np.ones(len(a[0]))
+            elif _o["stub"] == "pointwise":
+                r = np.array([g_stub(x, gk) for x in a[0]])
+            else:
+                r = o_pep(*a, **k)
+            ent["call"] = "ok"
+            ent["out"] = np.array(r, dtype=float)
+            return r
+
+        def qv(*a, **k):
+            r = o_q(*a, **k)
+            qcalls.append(np.array(r, dtype=float))
+            return r
+
+        with tempfile.TemporaryDirectory() as td, warnings.catch_warnings(), np.errstate(all="ignore"):
+            warnings.simplefilter("ignore")
+            td = Path(td)
+            src, dest = td / "src", td / "dest"
+            src.mkdir(); dest.mkdir()
+            raised = None
+            try:
+                ds = mkdata.read_dataset(mkdata.write_table(df, td / "in.pin"))
+                with pipeline.pep_kernel(stub=True):    # the tool's input files: their PEP column is dropped by the tool
+                    pipeline.run_assign_confidence([ds], [feat], src, prefixes=["p0"], decoys=True, do_rollup=True)
+            except BaseException as e:
+                if isinstance(e, KeyboardInterrupt):
+                    raise
+                chk.reject(f"rollup-input:{type(e).__name__}")
+                continue
+            srcf = [src / f"p0.{w}.{ROLLUP_SRC_FILE[o['base']]}" for w in ("targets", "decoys")]
+            if any((not f.exists()) or len(pd.read_csv(f, sep="\t")) == 0 for f in srcf):
+                chk.reject("rollup-input-file-without-rows")
+                continue
+            header = list(pd.read_csv(srcf[0], sep="\t", nrows=0).columns)
+            cols = [ROLLUP_STD.get(c, c) for c in header]
+            levels = [lv for lv in BR.compute_rollup_levels(ROLLUP_STD.get(o["base"], o["base"])) if lv in cols]
+            args = ["--level", o["base"], "-s", str(src), "-d", str(dest), "-r", "roll"]
+            if o["given"]:
+                args += ["--peps_algorithm", o["alg"], "--qvalue_algorithm", o["qalg"]]
+            exp_alg = o["alg"] if o["given"] else "qvality"
+            BR.peps_from_scores, QV.qvalues_from_scores = pep, qv
+            try:
+                with contextlib.redirect_stdout(io.StringIO()), contextlib.redirect_stderr(io.StringIO()):
+                    BR.main(args)
+            except BaseException as e:
+                if isinstance(e, KeyboardInterrupt):
+                    raise
+                raised = e
+            finally:
+                BR.peps_from_scores, QV.qvalues_from_scores = o_pep, o_q
+            chk.count("rollup_run", f"{'stub:' + o['stub'] if o['stub'] else 'real:' + o['alg']}")
+            chk.count("rollup_run_opts", f"base={o['base']},levels={len(levels)},options={'given' if o['given'] else 'default'}")
+            check_rollup_run(chk, opts, dest, levels, calls, qcalls, raised, exp_alg, gk)
+
+
+def check_rollup_run(chk, opts, dest, levels, calls, qcalls, raised, exp_alg, gk):
+    stub, alg = opts["stub"], exp_alg
+    lines, ctx = [], []
+    if raised is not None:
+        last = calls[-1] if calls else None
+        got = "reject-SystemExit" if isinstance(raised, SystemExit) else "reject-raised"
+        chk.case(None, ("rollup-raised", repr(sorted(opts.items())), got))
+        if last is None or last["call"] == "ok":
+            # q-values and PEPs of the level were in hand (or no level was reached): the files are promised
+            if stub is None and last is None:
+                chk.reject(f"rollup:{alg}:{type(raised).__name__}")
+            else:
+                chk.spec_violation("rollup-tool-raises",
+                                   dict(opts=opts, error=repr(raised)[:300],
+                                        clause="each PSM receives one PEP in its result file: the roll-up tool raised "
+                                               f"{type(raised).__name__} although the estimators had answered"))
+            return
+        exp = "reject-SystemExit" if last["call"] == "exit-no-decoys" else "reject-raised"
+        if stub is None:
+            chk.reject(f"rollup:{alg}:{type(raised).__name__}")   # the real estimator failed: its own check reports it
+        elif got != exp:
+            chk.corr_break("rolluplevelfiles-raise", dict(opts=opts, impl=f"{got}: {raised!r}"[:300], model=exp))
+        else:
+            chk.count("rollup_raise_as_modelled", got)
+        calls = calls[:-1]
+    elif stub in ("exit-no-decoys", "raised") and levels:
+        chk.case(None, ("rollup-not-raised", repr(sorted(opts.items()))))
+        chk.corr_break("rolluplevelfiles-raise", dict(opts=opts, impl="no exception", model="reject"))
+        return
+    if raised is None and len(calls) != len(levels):
+        chk.corr_break("rolluplevelfiles", dict(opts=opts, error=f"{len(calls)} PEP calls for the levels {levels}"))
+        return
+    for k, call in enumerate(calls):
+        lv = levels[k]
+        sc, tg, pp = call["scores"], call["targets"], call["out"]
+        qs = qcalls[k] if k < len(qcalls) else None
+        n = len(sc)
+        info = dict(opts=opts, level=lv, rows=n)
+        chk.case(None, ("rollup-level", repr(sorted(opts.items())), lv, n, tuple(sc[:6].tolist())))
+        chk.count("rollup_level", lv)
+        if call["alg"] != alg:
+            chk.corr_break("rolluplevelfiles", dict(info, error=f"estimator {call['alg']!r} instead of {alg!r}"))
+            continue
+        tf = read_tool_file(dest / f"roll.targets.{lv}s")
+        dfile = read_tool_file(dest / f"roll.decoys.{lv}s")
+        if tf is None or dfile is None or qs is None or len(qs) != n or len(pp) != n:
+            chk.corr_break("rolluplevelfiles", dict(info, error="result file, q-values or PEPs of the level missing"))
+            continue
+        # direct re-statement: row i of the level, with q[i] and pep[i], in the file of its label, in level order
+        exp_t = [(fx(sc[i]), fx(qs[i]), fx(pp[i])) for i in range(n) if tg[i]]
+        exp_d = [(fx(sc[i]), fx(qs[i]), fx(pp[i])) for i in range(n) if not tg[i]]
+        bad = None
+        for fname, rows, exp in (("targets", tf, exp_t), ("decoys", dfile, exp_d)):
+            if len(rows) != len(exp):
+                bad = f"{fname}: {len(rows)} rows for {len(exp)} rows of the level with that label"
+            else:
+                for j, (r_, e_) in enumerate(zip(rows, exp)):
+                    if r_[0] != e_[0]:
+                        bad = f"{fname}: row {j} has score {num(r_[0])}, the level row {num(e_[0])}"
+                    elif r_[2] != e_[2]:
+                        bad = f"{fname}: row {j} (score {num(r_[0])}) has PEP {num(r_[2])}, its own is {num(e_[2])}"
+                    elif r_[1] != e_[1]:
+                        bad = f"{fname}: row {j} (score {num(r_[0])}) has q-value {num(r_[1])}, its own is {num(e_[1])}"
+                    elif stub == "pointwise" and r_[2] != fx(g_stub(num(r_[0]), gk)):
+                        bad = f"{fname}: row {j} PEP {num(r_[2])} is not g(score) = {g_stub(num(r_[0]), gk)}"
+                    if bad:
+                        break
+            if bad:
+                break
+        if bad:
+            chk.spec_violation("rollup-file-alignment",
+                               dict(info, clause="the PEP column of every result file is aligned with its row (roll-up "
+                                    "tool): " + bad, impl=[(num(a), num(c)) for a, b, c in (tf + dfile)[:30]],
+                                    expected=[(float(a), float(c)) for a, c in zip(sc[:30], pp[:30])]))
+            continue
+        chk.count("rollup_file_aligned", f"{'stub' if stub else alg}:{lv}")
+        fs = np.array([num(r[0]) for r in tf + dfile])
+        fp = np.array([num(r[2]) for r in tf + dfile])
+        nt, nd = int(tg.sum()), int((~tg).sum())
+        inq = stub == "pointwise" or (stub is None and nt >= 50 and nd >= 50 and len(set(fs.tolist())) >= 10)
+        if stub != "ones" and len(fs):
+            v = spec_clauses(alg, fs, fp)
+            if v is not None and inq:
+                chk.spec_violation(f"rollup-file-{v.split(':')[0]}:{'stub' if stub else alg}",
+                                   dict(info, clause=f"PEP column of the {lv} files of the roll-up tool: {v}",
+                                        scores=fs[:40].tolist(), impl=fp[:40].tolist()))
+                continue
+            if v is not None:
+                chk.reject(f"rollup-file:{alg}:outside-quantifier:{v.split(':')[0]}")
+        if np.isfinite(qs).all() and np.isfinite(pp).all():
+            lines.append(req("rolluplevelfiles", [[i, F(s_), bool(t_)] for i, (s_, t_) in enumerate(zip(sc, tg))],
+                             fl(qs), fl(pp)))
+            ctx.append((info, tg, tf, dfile))
+        else:
+            chk.reject("rollup-file:non-finite-q-or-pep-column")
+    if lines:
+        resp = common.driver_batch(lines)
+        for (info, tg, tf, dfile), r in zip(ctx, resp):
+            r = r.strip()
+            ok = r.startswith("[")
+            if ok:
+                mt, md = dec(r)
+                m_t = [(a_rat(x[1]), a_rat(x[2]), a_rat(x[3])) for x in mt]
+                m_d = [(a_rat(x[1]), a_rat(x[2]), a_rat(x[3])) for x in md]
+                ids_ok = ([a_int(x[0]) for x in mt] == [i for i in range(len(tg)) if tg[i]]
+                          and [a_int(x[0]) for x in md] == [i for i in range(len(tg)) if not tg[i]])
+                ok = ids_ok and m_t == tf and m_d == dfile
+            if not ok:
+                chk.corr_break("rolluplevelfiles", dict(info, impl=repr((tf[:5], dfile[:5]))[:600], model=r[:600]))
+            else:
+                chk.count("rollup_file_model_agrees", info["level"])
 
 
 # ----------------------------------------------------------------------------------------------
@@ -1394,6 +1920,32 @@ def run_corpus(chk):
     flush(chk, pending)
 
 
+def quantile_case(nt, nd, sep, sd):
+    """a deterministic, regular input: targets at the quantiles of N(sep, sd), decoys at the quantiles of N(0, 1),
+    interleaved (no incorrect target at all)"""
+    from statistics import NormalDist
+
+    nd_ = NormalDist()
+    tg = [sep + sd * nd_.inv_cdf((k + 0.5) / nt) for k in range(nt)]
+    dc = [nd_.inv_cdf((k + 0.5) / nd) for k in range(nd)]
+    rows = [x for pair in itertools.zip_longest([(x, True) for x in tg], [(x, False) for x in dc]) for x in pair
+            if x is not None]
+    return dict(scores=[r[0] for r in rows], labels=[r[1] for r in rows], shape="quantiles", gran=None,
+                arr="interleaved", pi0=0.0, sep=sep, mixture="separated")
+
+
+def run_fixed(chk):
+    """hand-picked inputs run on every seed: the smallest regular inputs on which the second pass found the code to
+    fail (GAPS-C06.md §6; repaired by commit 835a908 of /repo) — kept as regression inputs"""
+    pending = []
+    for nt, nd, sep, sd in ((50, 50, 8.0, 0.5), (50, 50, 6.0, 0.5)):
+        for alg in ("kde_nnls", "hist_nnls", "from_peps", "from_counts"):
+            case = dict(quantile_case(nt, nd, sep, sd), form="positional")
+            chk.count("fixed_case", f"sep={sep}:{alg}")
+            eval_one(chk, case, alg, list(range(nt + nd))[::-1], pending)
+    flush(chk, pending)
+
+
 def search(chk):
     """failing-input search when a proof or the correspondence is broken"""
     run_generated(chk, 10, 150, 1500)
@@ -1403,6 +1955,8 @@ def search(chk):
         sweep_writer(chk, 5, 300)
     if not chk.spec_violations:
         result_files_ext(chk, 64, ["hist_nnls"] * 6 + ["kde_nnls"] * 2)
+    if not chk.spec_violations:
+        rollup_files(chk, 36, ["hist_nnls"] * 3 + ["kde_nnls"])
 
 
 def minimise(chk):
@@ -1549,6 +2103,7 @@ def main(chk, args):
     if not build.driver_ok:
         chk.finish(build, RULE)
     run_corpus(chk)
+    run_fixed(chk)
     if chk.tier == "quick":
         sweep_primitives(chk, full=False)
         run_generated(chk, 7, 60, 1200)
@@ -1557,6 +2112,7 @@ def main(chk, args):
         dispatch_cases(chk, 10)
         sweep_writer(chk, 4, 40)
         result_files_ext(chk, 16, ["hist_nnls", "hist_nnls", "kde_nnls"])
+        rollup_files(chk, 4, ["hist_nnls"])
         sqlite_cases(chk, 2)
     else:
         sweep_primitives(chk, full=True)
@@ -1566,12 +2122,14 @@ def main(chk, args):
         dispatch_cases(chk, 300)
         sweep_writer(chk, 6, 600)
         result_files_ext(chk, 160, ["hist_nnls"] * 14 + ["kde_nnls"] * 6 + ["qvality"] * 4)
+        rollup_files(chk, 60, ["hist_nnls"] * 6 + ["kde_nnls"] * 3 + ["qvality"] * 2)
         sqlite_cases(chk, 20)
     minimise(chk)
     lc = common.leanchecker("C06") if chk.tier == "thorough" else None
-    if lc is not None:   # the second property module (Props/C06File.lean) is re-checked as well
-        lc2 = common.leanchecker("C06File")
-        lc = (lc[0] and lc2[0], lc[1] + lc2[1])
+    if lc is not None:   # the other property modules (Props/C06File, C06Kernel, C06Tool) are re-checked as well
+        for extra_mod in ("C06File", "C06Kernel", "C06Tool"):
+            lc2 = common.leanchecker(extra_mod)
+            lc = (lc[0] and lc2[0], lc[1] + lc2[1])
     chk.assumptions += [
         "PARTIAL claim: the numeric kernels (triqler's spline + its monotonisation, scipy gaussian_kde on the "
         "linspace grid, np.histogram bin midpoints, scipy.optimize.nnls, estimate_pi0_by_slope/np.polyfit) are "
@@ -1599,7 +2157,17 @@ def main(chk, args):
         "peps_from_scores and Confidence.write_to_disk; alignment is checked by PSMId with exact float equality "
         "(text files parsed with float_precision='round_trip'); the level loop is reached with desc=True only "
         "(assign_confidence negates lower-is-better scores itself), the desc=False branch of the model is covered "
-        "by the theorem and the mutant only; the SQLite writer is driven by `sqlite_cases` (database rows compared with the text result files of the same analysis, stub estimator); the protein level is not driven here",
+        "by the theorem and the mutant only; the SQLite writer is driven by `sqlite_cases` (database rows compared with the text result files of the same analysis, stub estimator); the protein level and the extra roll-up levels are driven by the stub runs of result_files_ext",
+        "second pass: estimate_pi0_by_slope is modelled up to np.polyfit (the product threshold * max and the slope are "
+        "recomputed by the harness with the same numpy primitives on the recorded arrays and handed to the model as its "
+        "parameters; the returned value is compared exactly); the NNLS input of kde_nnls is compared within the float "
+        "tolerance (plus 8 * 2^-1074 / target_pdf on grid points with subnormal densities, tallied as float-boundary "
+        "cases), NaN (0/0 on a vanishing target density: the code before 835a908) as `nan`; fit_nnls / monotonize_nnls (matrix set-up, scipy "
+        "nnls) and gaussian_kde / np.histogram stay abstract",
+        "roll-up tool: per level, the arrays handed to mokapot.brew_rollup.peps_from_scores and returned by it and by "
+        "mokapot.qvalues.qvalues_from_scores are recorded by pass-through wrappers; the level's rows are identified by "
+        "their position (targets file = rows with the target label, in level order); the order of the levels is that of "
+        "brew_rollup.compute_rollup_levels (checked by C03)",
     ]
     chk.finish(build, RULE, search=search, lc=lc,
                trusted_extra=["triqler.qvality, scipy.stats.gaussian_kde, scipy.optimize.nnls, np.histogram, "
